@@ -1,6 +1,10 @@
 """C17 - Live aircraft table: robust, correct positions, bounded staleness."""
+import csv
 import math
+import os
 import random
+import shutil
+import tempfile
 
 from hypothesis import strategies as st
 from hypothesis.stateful import RuleBasedStateMachine, initialize, precondition, rule
@@ -56,14 +60,37 @@ class Sim:
         self.listed = set()
         self.pos_log = {}
         self.ever_adsb = set()
-        self.stats = {"global": 0, "ref": 0, "evict": 0, "merge": 0, "cross": 0, "flush": 0, "msgs": 0}
+        self.stats = {"global": 0, "ref": 0, "evict": 0, "merge": 0, "cross": 0, "flush": 0, "msgs": 0, "crowd": 0, "dump": 0}
+        self.dumpdir = None
+        self.dump_off = 0
 
     # ---- steps
-    def init(self, lat, lon, t_start=1000.0, rx_known=True):
+    def init(self, lat, lon, t_start=1000.0, rx_known=True, dump=False):
         self.now = t_start
         self.rx = (lat, lon)
-        # the decoder may run without a receiver position (surface pairs then cannot be decoded globally, nothing else changes)
-        self.dec = (Decode(latlon=(lat, lon)), Decode(latlon=(lat, lon))) if rx_known else (Decode(), Decode())
+        # the decoder may run without a receiver position (surface pairs then cannot be decoded globally, nothing else changes);
+        # the first decoder may write its CSV dump (Decode(dumpto=<directory>), the modeslive --dumpto option) into a scratch directory
+        kw = {"latlon": (lat, lon)} if rx_known else {}
+        if dump:
+            self.dumpdir = tempfile.mkdtemp(prefix="pmsdump-")
+            self.dec = (Decode(dumpto=self.dumpdir, **kw), Decode(**kw))
+        else:
+            self.dec = (Decode(**kw), Decode(**kw))
+
+    def close(self):
+        if self.dumpdir:
+            shutil.rmtree(self.dumpdir, ignore_errors=True)
+            self.dumpdir = None
+
+    def _dump_rows(self):
+        """rows the first decoder appended to its dump since the last look"""
+        rows = []
+        for fn in sorted(os.listdir(self.dumpdir)):
+            with open(os.path.join(self.dumpdir, fn), newline="") as f:
+                rows += list(csv.reader(f))
+        new = rows[self.dump_off:]
+        self.dump_off = len(rows)
+        return new
 
     def add_aircraft(self, idx, near, lat, lon, dist, brg, trk, spd, mode):
         addr = ADDRS[idx % len(ADDRS)]
@@ -139,6 +166,8 @@ class Sim:
 
     @staticmethod
     def _alt12(bits):
+        if bits % 16 == 5:
+            return 0      # altitude not available (all-zero code): the table stores None for it
         n = 40 + bits % 1800  # 25-ft code with Q=1: 12-bit field = n[10:4] Q n[3:0]
         return ((n >> 4) << 5) | (1 << 4) | (n & 15)
 
@@ -157,9 +186,22 @@ class Sim:
         if addr is None:
             return
         r = mix("v", seed)
+        vr = r.getrandbits(11)
+        if seed % 4 == 0:
+            vr &= 0x600   # vertical rate not available (all-zero 9-bit field) in a quarter of the velocity messages
         me = frames.me_from([(19, 5), (r.randint(1, 4), 3), (r.getrandbits(5), 5), (r.getrandbits(1), 1), (r.randint(0, 1023), 10), (r.getrandbits(1), 1),
-                             (r.randint(0, 1023), 10), (r.getrandbits(11), 11), (r.getrandbits(10), 10)])
+                             (r.randint(0, 1023), 10), (vr, 11), (r.getrandbits(10), 10)])
         self._emit(addr, me, 17)
+
+    def crowd(self, n, seed):
+        """n further aircraft (addresses of their own, 0x5xxxxx) each heard once at the current time with an identification message"""
+        base = 0x500000 + (seed % 8) * 0x4000
+        for i in range(n):
+            cs = 0
+            for k in range(8):
+                cs = (cs << 6) | (1 + (i * 7 + k * 3 + seed) % 26)
+            self._emit(base + i, (4 << 51) | cs, 17)
+        self.stats["crowd"] = max(self.stats["crowd"], n)
 
     def status(self, idx, kind, seed):
         addr = self._addr(idx)
@@ -231,6 +273,7 @@ class Sim:
                 raise Violation("process_raw raised %r on ADS-B batch %r, Comm-B batch %r, tnow=%r (%s-case input)" % (
                     r[1:], list(zip(a_ts, a_msg)), list(zip(c_ts, c_msg)), tnow, "upper" if k == 0 else "lower"))
         self.stats["flush"] += 1
+        dumped = self._dump_rows() if self.dumpdir else []
         # model update
         batch_adsb_addrs = set()
         for t, m in self.batch_a:
@@ -249,6 +292,10 @@ class Sim:
         for k in keys:
             if k not in self.ever_adsb:
                 raise Violation("table lists %r, an address never seen in an ADS-B message (Comm-B / history: %r)" % (k, c_msg))
+        for row in dumped:
+            self.stats["dump"] += 1
+            if len(row) != 4 or row[1].upper() not in self.ever_adsb:
+                raise Violation("dump row %r: not [time, address, field, value] for an address seen in ADS-B (batches %r / %r)" % (row, a_msg[:5], c_msg[:5]))
         newlisted = set()
         for addr, th in self.last_heard.items():
             was = addr in self.listed or addr in batch_adsb_addrs
@@ -310,10 +357,12 @@ def chk_history(case, note):
         sim.flush()
     except Violation as v:
         return str(v)
+    finally:
+        sim.close()
     s = sim.stats
     note.evals = max(1, s["flush"])
     note.cls("flushes:%d" % min(s["flush"], 9), "aircraft:%d" % len(sim.acs))
-    for k in ("evict", "merge", "cross", "ref"):
+    for k in ("evict", "merge", "cross", "ref", "dump"):
         if s[k]:
             note.cls("with-" + k)
     note.nt(bool(s["ref"] and (s["evict"] or s["merge"] or s["cross"])) or s["ref"] > 3)
@@ -339,6 +388,7 @@ class Machine(RuleBasedStateMachine):
         self.steps = []
         self.sim = Sim()
         self.dead = False
+        self.busy = False
 
     def do(self, name, *args):
         import time
@@ -358,15 +408,17 @@ class Machine(RuleBasedStateMachine):
             raise
 
     def teardown(self):
+        self.sim.close()
         if not self.dead and self.sim.dec is not None:
             keep = [list(x) for x in self.steps[:40]] if sum(1 for c in Machine.COLLECT if c[3] is not None) < 2 and self.sim.stats.get("ref") else None
             Machine.COLLECT.append((hash(repr(self.steps)), dict(self.sim.stats), len(self.sim.acs), keep))
 
-    @initialize(lat=RXLAT, lon=RXLON, rx_known=st.sampled_from([True, True, True, False]), t_start=st.sampled_from([1000.0, 1000.0, 0.0, -0.9, -500.75, 1.7e9 + 0.5, -61.3]), first=st.lists(st.tuples(st.integers(0, 5), st.booleans(), cg.latitudes(), cg.longitudes(), gen.ufloat(0, 28), gen.ufloat(0, 360),
+    @initialize(lat=RXLAT, lon=RXLON, rx_known=st.sampled_from([True, True, True, False]), t_start=st.sampled_from([1000.0, 1000.0, 0.0, -0.9, -500.75, 1.7e9 + 0.5, -61.3]), dump=st.sampled_from([False, False, True]), busy=st.sampled_from([False] * 9 + [True]), first=st.lists(st.tuples(st.integers(0, 5), st.booleans(), cg.latitudes(), cg.longitudes(), gen.ufloat(0, 28), gen.ufloat(0, 360),
                                                                gen.ufloat(0, 360), st.one_of(gen.ufloat(0, 600), st.just(600.0)), st.sampled_from(["air", "air", "sfc"])),
                                                      min_size=1, max_size=3))
-    def start(self, lat, lon, first, t_start, rx_known):
-        self.do("init", lat, lon, t_start, rx_known)
+    def start(self, lat, lon, first, t_start, rx_known, dump, busy):
+        self.busy = busy
+        self.do("init", lat, lon, t_start, rx_known, dump)
         for a in first:
             self.do("add_aircraft", *a)
 
@@ -437,6 +489,24 @@ class Machine(RuleBasedStateMachine):
     @rule(idx=IDX, seed=SEED, which=st.sampled_from(["ident", "velocity"]))
     def info(self, idx, seed, which):
         self.do(which, idx, seed)
+
+    @precondition(lambda self: self.sim.acs)
+    @rule(idx=IDX, seed=SEED, parity=st.integers(0, 1), bits=gen.ubits(15))
+    def same_stamp(self, idx, seed, parity, bits):
+        """several messages of one aircraft carrying the same time stamp, with and without a vertical rate / an altitude"""
+        self.do("velocity", idx, seed * 4)
+        self.do("velocity", idx, seed * 4 + 1)
+        self.do("position", idx, parity, 2, bits & ~15 | 5, 17)
+        self.do("position", idx, parity, 2, bits & ~15 | 6, 17)
+        self.do("flush")
+
+    @precondition(lambda self: self.busy and self.sim.stats["msgs"] < 5000)
+    @rule(n=st.sampled_from([40, 300, 1030, 1500, 2100]), seed=st.integers(0, 1), dt=st.sampled_from([0.0, 5.0, 30.0]))
+    def crowd(self, n, seed, dt):
+        """a busy sky: hundreds to thousands of further aircraft heard within the same minute"""
+        self.do("crowd", n, seed)
+        self.do("advance", dt)
+        self.do("flush")
 
     @precondition(lambda self: self.sim.acs)
     @rule(idx=IDX, kind=st.sampled_from(["tss", "ops", "ops", "emerg"]), seed=SEED)
